@@ -74,7 +74,11 @@ class DecimalConvertor(Convertor[Decimal]):
             raise ValueError("Infinite values are not supported")
         if Decimal("0.0") > value:
             raise ValueError("Negative decimal are not supported")
-        return str(value).rstrip("0").rstrip(".")
+        text = format(value, "f")  # plain notation, never an exponent
+        if "." in text:
+            # only fractional zeros are insignificant: "1.50" -> "1.5", but "100" stays
+            text = text.rstrip("0").rstrip(".")
+        return text
 
 
 @mypyc_attr(allow_interpreted_subclasses=True)
